@@ -167,10 +167,32 @@ func readObj(b storage.BucketHandle, name string) (data []byte, exists bool, err
 func listObjs(b storage.BucketHandle, prefix string) (names []string, err error) {
 	err = guard(func() error {
 		it := b.Objects(context.Background(), prefix)
+		it2 := b.Objects(context.Background(), prefix) // a second listing, consumed after the first
 		for i := 0; ; i++ {
 			n, e := it.Next()
 			if errors.Is(e, storage.ErrObjectIteratorDone) {
-				return nil
+				// an exhausted iterator stays exhausted
+				for k := 0; k < 2; k++ {
+					if n2, e2 := it.Next(); !errors.Is(e2, storage.ErrObjectIteratorDone) {
+						return fmt.Errorf("Next after done returned (%q, %v)", n2, e2)
+					}
+				}
+				// the second listing of the same state gives the same names
+				for k := 0; ; k++ {
+					n2, e2 := it2.Next()
+					if errors.Is(e2, storage.ErrObjectIteratorDone) {
+						if k != len(names) {
+							return fmt.Errorf("two listings of one state differ: %d and %d names", len(names), k)
+						}
+						return nil
+					}
+					if e2 != nil {
+						return fmt.Errorf("Next: %w", e2)
+					}
+					if k >= len(names) || names[k] != n2 {
+						return fmt.Errorf("two listings of one state differ at %d: %q", k, n2)
+					}
+				}
 			}
 			if e != nil {
 				return fmt.Errorf("Next: %w", e)
@@ -214,6 +236,7 @@ type rstep struct {
 	Data   string                       `json:"data"`
 	Prefix string                       `json:"prefix"`
 	Style  string                       `json:"style"`
+	Via    int                          `json:"via"`   // which handle of the bucket(s) to use (1 or 2)
 	SB     string                       `json:"sb"`    // copy: source bucket
 	SName  string                       `json:"sname"` // copy: source name
 	Exists bool                         `json:"exists"` // read: expected
@@ -274,11 +297,23 @@ func TestVerifC18Replay(t *testing.T) {
 	matched, steps := 0, 0
 	ctx := context.Background()
 	src := newSource(t)
+	origWD, _ := os.Getwd()
+	defer os.Chdir(origWD)
 	for _, bh := range in.Behaviours {
 		parent := t.TempDir()
 		root := filepath.Join(parent, "root")
 		os.WriteFile(filepath.Join(parent, "sentinel"), []byte("s"), 0666)
-		bk := map[string]storage.BucketHandle{}
+		// every second behaviour names the storage root by a relative path, as
+		// the default configuration (".localstorage") does
+		if bh.ID%2 == 1 {
+			if err := os.Chdir(parent); err != nil {
+				t.Fatal(err)
+			}
+			root = "root"
+		}
+		// two handles per bucket: the second is opened lazily, after the first
+		// has been used (a second process, or a restart)
+		handles := map[string][]storage.BucketHandle{}
 		good := true
 		for _, b := range bh.Buckets {
 			h, err := storage.NewFSBucket(ctx, root, b)
@@ -287,7 +322,20 @@ func TestVerifC18Replay(t *testing.T) {
 				good = false
 				break
 			}
-			bk[b] = h
+			handles[b] = []storage.BucketHandle{h, nil}
+		}
+		pick := func(b string, via int) storage.BucketHandle {
+			if via != 2 {
+				return handles[b][0]
+			}
+			if handles[b][1] == nil {
+				h, err := storage.NewFSBucket(ctx, root, b)
+				if err != nil {
+					t.Fatal(err)
+				}
+				handles[b][1] = h
+			}
+			return handles[b][1]
 		}
 		for i, st := range bh.Steps {
 			if !good {
@@ -296,7 +344,7 @@ func TestVerifC18Replay(t *testing.T) {
 			steps++
 			bad := func(what string, extra rt.M) {
 				good = false
-				m := rt.M{"kind": "mismatch", "what": what, "id": bh.ID, "step": i, "op": st.Op, "b": st.B, "name": st.Name, "prefix": st.Prefix, "data": st.Data, "style": st.Style}
+				m := rt.M{"kind": "mismatch", "what": what, "id": bh.ID, "step": i, "op": st.Op, "b": st.B, "name": st.Name, "prefix": st.Prefix, "data": st.Data, "style": st.Style, "via": st.Via, "relative_root": bh.ID%2 == 1}
 				for k, v := range extra {
 					m[k] = v
 				}
@@ -305,11 +353,11 @@ func TestVerifC18Replay(t *testing.T) {
 			switch st.Op {
 			case "init":
 			case "write":
-				if err := writeObj(t, src, bk[st.B], st.Name, datas[st.Data], st.Style); err != nil {
+				if err := writeObj(t, src, pick(st.B, st.Via), st.Name, datas[st.Data], st.Style); err != nil {
 					bad("write-error", rt.M{"err": err.Error()})
 				}
 			case "copy":
-				ok, _, cerr, err := copyObj(bk[st.B], st.Name, bk[st.SB], st.SName)
+				ok, _, cerr, err := copyObj(pick(st.B, st.Via), st.Name, pick(st.SB, st.Via), st.SName)
 				switch {
 				case err != nil:
 					bad("copy-error", rt.M{"err": err.Error(), "sb": st.SB, "sname": st.SName})
@@ -317,7 +365,7 @@ func TestVerifC18Replay(t *testing.T) {
 					bad("copy-result", rt.M{"want_ok": st.Exists, "got_ok": ok, "copy_err": cerr, "sb": st.SB, "sname": st.SName})
 				}
 			case "read":
-				d, ex, err := readObj(bk[st.B], st.Name)
+				d, ex, err := readObj(pick(st.B, st.Via), st.Name)
 				switch {
 				case err != nil:
 					bad("read-error", rt.M{"err": err.Error(), "want_exists": st.Exists})
@@ -327,7 +375,7 @@ func TestVerifC18Replay(t *testing.T) {
 					bad("read-data", rt.M{"want": st.Want, "got": idOf(d)})
 				}
 			case "list":
-				names, err := listObjs(bk[st.B], st.Prefix)
+				names, err := listObjs(pick(st.B, st.Via), st.Prefix)
 				if err != nil {
 					bad("list-error", rt.M{"err": err.Error()})
 				} else if !sameSet(names, st.List) {
@@ -371,6 +419,7 @@ func TestVerifC18Replay(t *testing.T) {
 				bad("disk", rt.M{"diffs": diffs})
 			}
 		}
+		os.Chdir(origWD)
 		if good {
 			matched++
 		}
@@ -387,10 +436,11 @@ func genData(n int, seed int64) []byte {
 
 // ------------------------------------------- code -> model: random histories
 
+// chars splits a string into its characters (runes), one string each.
 func chars(s string) []string {
 	out := make([]string, 0, len(s))
-	for i := 0; i < len(s); i++ {
-		out = append(out, s[i:i+1])
+	for _, c := range s {
+		out = append(out, string(c))
 	}
 	return out
 }
@@ -403,20 +453,31 @@ func comps(name string) [][]string {
 	return out
 }
 
-const compChars = "abcxyzABX0123456789-_.+"
+// characters of ordinary components: letters, digits, punctuation that means
+// something to shells, globs, URLs or Windows but nothing to a Unix file
+// name, blanks, and multi-byte characters
+var compChars = []rune("abcxyzABX0123456789-_.+" + "abc012-_." + " ~$%#?*[]:=,;@!&()'\"\\{}^|<>" + "éü日本語")
 
 func randComp(r *rand.Rand) string {
 	for {
 		n := 1 + r.Intn(4)
+		if r.Intn(60) == 0 {
+			n = 60 + r.Intn(25) // a long component (at most 84 characters of at most 3 bytes: below the 255-byte limit of a file name)
+		}
 		var sb strings.Builder
 		for i := 0; i < n; i++ {
-			sb.WriteByte(compChars[r.Intn(len(compChars))])
+			sb.WriteRune(compChars[r.Intn(len(compChars))])
 		}
 		s := sb.String()
 		if s != "." && s != ".." {
 			return s
 		}
 	}
+}
+
+// lastCompLen is the length in bytes of the last component of a name.
+func lastCompLen(n string) int {
+	return len(n) - 1 - strings.LastIndex(n, "/")
 }
 
 // properPathPrefix reports whether a is a proper component-wise prefix of b.
@@ -443,6 +504,31 @@ func diskOf(parent string, dataID func([]byte) string) []rt.M {
 	return disk
 }
 
+// handlePair gives out one of two handles on the same bucket; the second is
+// opened when first asked for (after the first has been used).
+type handlePair struct {
+	t      *testing.T
+	root   string
+	bucket string
+	r      *rand.Rand
+	first  storage.BucketHandle
+	second storage.BucketHandle
+}
+
+func (p *handlePair) any() storage.BucketHandle {
+	if p.r.Intn(2) == 0 {
+		return p.first
+	}
+	if p.second == nil {
+		h, err := storage.NewFSBucket(context.Background(), p.root, p.bucket)
+		if err != nil {
+			p.t.Fatal(err)
+		}
+		p.second = h
+	}
+	return p.second
+}
+
 // TestVerifC18Random runs random operation histories against real FSBuckets
 // and records every operation with its observed result (and, for writes, the
 // complete file tree) for validation by StorageTrace.tla.
@@ -459,11 +545,20 @@ func TestVerifC18Random(t *testing.T) {
 	ctx := context.Background()
 	nops := 0
 	src := newSource(t)
+	origWD, _ := os.Getwd()
+	defer os.Chdir(origWD)
 	for h := 0; h < in.Histories; h++ {
+		os.Chdir(origWD)
 		parent := t.TempDir()
 		root := filepath.Join(parent, "root")
+		if h%3 == 1 { // the storage root named by a relative path
+			if err := os.Chdir(parent); err != nil {
+				t.Fatal(err)
+			}
+			root = "root"
+		}
 		bnames := [][]string{{"bk", "bk2"}, {"local-telemetry-uploaded", "local-telemetry-merged"}, {"x", "y"}}[r.Intn(3)]
-		bk := map[string]storage.BucketHandle{}
+		bk := map[string]*handlePair{}
 		failed := false
 		for _, b := range bnames {
 			hd, err := storage.NewFSBucket(ctx, root, b)
@@ -472,7 +567,7 @@ func TestVerifC18Random(t *testing.T) {
 				failed = true
 				break
 			}
-			bk[b] = hd
+			bk[b] = &handlePair{t: t, root: root, bucket: b, r: r, first: hd}
 		}
 		if failed {
 			continue
@@ -502,12 +597,17 @@ func TestVerifC18Random(t *testing.T) {
 			default: // path extension (conflicts with its parent; only one of them can be stored)
 				n = pool[r.Intn(len(pool))] + "/" + randComp(r)
 			}
-			if strings.Count(n, "/") <= 4 {
+			if strings.Count(n, "/") <= 4 && lastCompLen(n) <= 255 {
 				pool = append(pool, n)
 			}
 		}
 		// service-shaped names
 		pool = append(pool, "2023-01-01/0.5.json", "2023-01-01/1e+308.json", "2023-01-08/0.5.json", "2023-01-01.json", "2023-01-01_2023-01-07.json")
+		// dots that are not "." or "..", and a component of exactly 255 bytes
+		pool = append(pool, ".hidden", "...", "..x/y", "x../..y", "d/...", "d/ ")
+		if r.Intn(2) == 0 {
+			pool = append(pool, strings.Repeat("L", 255)+"/"+strings.Repeat("m", 255))
+		}
 		stored := map[string]map[string]bool{}
 		for _, b := range bnames {
 			stored[b] = map[string]bool{}
@@ -545,7 +645,7 @@ func TestVerifC18Random(t *testing.T) {
 				if !usable(b, n) || !usable(sb, m) || (b == sb && n == m) {
 					continue
 				}
-				ok, ne, cerr, err := copyObj(bk[b], n, bk[sb], m)
+				ok, ne, cerr, err := copyObj(bk[b].any(), n, bk[sb].any(), m)
 				rec := rt.M{"kind": "obs", "op": "copy", "h": h, "b": b, "name": comps(n), "sb": sb, "sname": comps(m), "ok": ok && err == nil,
 					"notexist": ne, "text": n + " <- " + sb + ":" + m}
 				if err != nil {
@@ -564,9 +664,11 @@ func TestVerifC18Random(t *testing.T) {
 					continue
 				}
 				var ln int
-				switch r.Intn(6) {
+				switch r.Intn(8) {
 				case 0, 1:
 					ln = 0
+				case 6:
+					ln = []int{1, 32768, 32769, 32767, 65536}[r.Intn(5)] // around the buffer size of io.Copy
 				case 2:
 					ln = 70000 + r.Intn(70000)
 				default:
@@ -582,7 +684,7 @@ func TestVerifC18Random(t *testing.T) {
 				if ln == 0 {
 					style = []string{"nowrite", "nowrite", "write", "copy"}[r.Intn(4)]
 				}
-				err := writeObj(t, src, bk[b], n, d, style)
+				err := writeObj(t, src, bk[b].any(), n, d, style)
 				rec := rt.M{"kind": "obs", "op": "write", "h": h, "b": b, "name": comps(n), "data": id, "ok": err == nil, "text": n, "style": style, "empty": ln == 0}
 				if err != nil {
 					rec["err"] = err.Error()
@@ -595,7 +697,7 @@ func TestVerifC18Random(t *testing.T) {
 				if !usable(b, n) {
 					continue
 				}
-				d, ex, err := readObj(bk[b], n)
+				d, ex, err := readObj(bk[b].any(), n)
 				rec := rt.M{"kind": "obs", "op": "read", "h": h, "b": b, "name": comps(n), "ok": err == nil, "exists": ex, "data": "", "text": n}
 				if err != nil {
 					rec["err"] = err.Error()
@@ -616,9 +718,10 @@ func TestVerifC18Random(t *testing.T) {
 				case 3:
 					p = randComp(r)
 				default:
-					p = n[:r.Intn(len(n)+1)]
+					rs := []rune(n)
+					p = string(rs[:r.Intn(len(rs)+1)])
 				}
-				names, err := listObjs(bk[b], p)
+				names, err := listObjs(bk[b].any(), p)
 				rec := rt.M{"kind": "obs", "op": "list", "h": h, "b": b, "prefix": chars(p), "ok": err == nil, "text": p}
 				if err != nil {
 					rec["err"] = err.Error()
